@@ -12,6 +12,7 @@ import ISnap.Driver.SessionCmd
 import ISnap.Driver.ExternalCmd
 import ISnap.Driver.SetCmd
 import ISnap.Driver.FinishCmd
+import ISnap.Driver.CallCmd
 /-
   isnap-driver: one s-expression per line in, one per line out (DESIGN.md §3.7).
   Unknown or malformed input answers `(bad-op)`, never a default.
@@ -24,6 +25,7 @@ def handle (e : Sexp) : Sexp :=
   | .list (.atom "assign" :: rest) => (AssignCmd.run rest).getD (.list [.atom "bad-op"])
   | .list (.atom "storage" :: rest) => (ExternalCmd.run rest).getD (.list [.atom "bad-op"])
   | .list (.atom "setsort" :: rest) => (SetCmd.run rest).getD (.list [.atom "bad-op"])
+  | .list (.atom "callassign" :: rest) => (CallCmd.run rest).getD (.list [.atom "bad-op"])
   | .list (.atom "align" :: rest) => (AlignCmd.run rest).getD (.list [.atom "bad-op"])
   | .list (.atom c :: rest) =>
     if c == "strlit" || c == "pyrepr" || c == "bytesrepr" || c == "evallit" || c == "evalbytes" then
